@@ -505,8 +505,42 @@ def process_histories(rep, rnd, tier):
             return
 
 
+def construction(rep, rnd, tier):
+    """building managers, rulers and front ends is part of using the library: it must leave the context it is given as it was (its JSON
+    text, its parser id, its rule list), whatever the parser argument; a manager built afterwards on the same context behaves like
+    one built on a context loaded from the text taken BEFORE"""
+    from microschc.protocol.registry import factory
+    from p_c15 import load_front
+    SCHC = load_front()
+    for i in range(40 if tier == 'quick' else 400):
+        stack, pkt, st, pd = gen_parsed(rnd, ['IPv6-UDP-CoAP', 'IPv4-UDP-CoAP', 'UDP', 'CoAP', 'SCTP'][i % 5])
+        pd.direction = DI.UP
+        rules = gen_ruleset(rnd, pd, match_prob=0.8)
+        ctx = Context(id='c', description='d', interface_id='if0', parser_id=stack, ruleset=rules)
+        text0 = ctx.json()
+        other = {'IPv6-UDP-CoAP': 'IPv6', 'IPv4-UDP-CoAP': 'IPv4', 'UDP': 'CoAP', 'CoAP': 'UDP', 'SCTP': 'UDP'}[stack]
+        built = impl_outcome(lambda: (ContextManager(ctx, parser=str.__str__(other)), ContextManager(ctx, parser=factory(other)), ContextManager(ctx), Ruler(ctx.ruleset), SCHC([ctx])))
+        rep.count('construction', key=('constr', i))
+        rep.oracle_evals += 1
+        case = dict(layer='history', op='construction', stack=stack, other=other, context=text0)
+        if built[0] != 'OK':
+            rep.violation('property', 'building managers on a context raised %s' % built[1], case)
+            return
+        if ctx.json() != text0 or ctx.parser_id != stack or ctx.ruleset is not rules:
+            rep.violation('property', 'building a ContextManager (parser given as the stack name %r / as a parser object), a Ruler or a front end changed the context it was given: parser_id %r -> %r'
+                          % (other, stack, ctx.parser_id), case)
+            return
+        later, fresh = ContextManager(ctx), ContextManager(Context.from_json(text0))
+        o1 = obs_bits(with_timeout(lambda: later.compress(Buffer(pkt, len(pkt) * 8), direction=DI.UP)))
+        o2 = obs_bits(with_timeout(lambda: fresh.compress(Buffer(pkt, len(pkt) * 8), direction=DI.UP)))
+        if o1 != o2:
+            rep.violation('property', 'a manager built on a context after other managers were built on it compresses to %s, one built from the JSON text taken before to %s' % (str(o1)[:80], str(o2)[:80]), case)
+            return
+
+
 def run(rep, tier, seed):
     tables0 = module_tables()
+    construction(rep, rng_for(seed, 'C16-construction'), tier)
     bc.run_family(rep, 'C16', tier, seed)
     import bufheap
     bufheap.run(rep, rng_for(seed, 'C16-heap'), 200 if tier == 'quick' else 3000, 40)
